@@ -162,12 +162,12 @@ func c18Filter(hist []string) bool {
 	for _, op := range hist {
 		switch op {
 		case "VTTSET":
-			if !opened || locked || tt {
+			if !opened || tt {
 				return false
 			}
 			tt = true
 		case "VTTRESET":
-			if !tt || locked {
+			if !tt {
 				return false
 			}
 			tt = false
@@ -268,7 +268,8 @@ func (st *c18State) do(s *scn.Scn, op string) bool {
 	case "VTTSET":
 		// time travel switched on (T = a candidate time in the middle of the replica's history) and left on: the
 		// operations that follow happen while the target time is set
-		if st.f == nil || st.locked || st.tt {
+		// (also under a held SHARED lock: PRAGMA litestream_time inside an open read transaction)
+		if st.f == nil || st.tt {
 			return false
 		}
 		Ts, ts, terr := c18Times(s, st.arch)
@@ -293,7 +294,7 @@ func (st *c18State) do(s *scn.Scn, op string) bool {
 		c18Record(s, op, "ok")
 		return true
 	case "VTTRESET":
-		if st.f == nil || st.locked || !st.tt {
+		if st.f == nil || !st.tt {
 			return false
 		}
 		if err := st.f.ResetTime(ctx); err != nil {
@@ -1054,6 +1055,9 @@ func c18(args []string) int {
 			Seeds: seeds("W3 SW W1 SW VOPEN", "W3 SW U SW W1 SW VOPEN VTTSET")},
 		{Name: "time-travel/512-none/writes-during-time-travel", Cfg: n512, Alphabet: sub("VTTSET VTTRESET U W1 SW VPOLL"), Depth: d(3, 5),
 			Seeds: seeds("W3 SW W1 SW VOPEN", "W3 SW U SW W1 SW VOPEN VTTSET")},
+		// a target time set INSIDE an open read transaction that has already seen a poll stage newer files
+		{Name: "time-travel/512-none/set-under-held-lock", Cfg: n512, Alphabet: sub("W1 U SW VPOLL VTTSET VUNLOCK VTTRESET"), Depth: d(4, 5),
+			Seeds: seeds("W3 SW W1 SW VOPEN VLOCK", "W3 SW U SW W1 SW VOPEN VLOCK W1 SW VPOLL", "W3 SW W3 SW VOPEN VLOCK D VAC SW VPOLL")},
 		{Name: "time-travel/512-none/set-during-poll", Cfg: n512, Alphabet: sub("VPTT W1 SW VPOLL"), Depth: d(2, 3),
 			Seeds: seeds("W1 SW W1 SW W1 SW VOPEN W1 SW W1 SW", "W1 SW W3 SW VOPEN D VAC SW W1 SW")},
 		{Name: "time-travel/512-none", Cfg: n512, Cache: one(n512), TT: true, Alphabet: aTT, Depth: d(1, 3), Seeds: sTT},
